@@ -67,6 +67,8 @@ def finalize(m: dict, tier: str) -> list[str]:
     for f in ("sign", "finalize", "extract_tx", "_finalized_taproot_input", "miniscript_solver", "verify_transaction"):
         if not r.get(f):
             out.append(f"mechanism {f} never entered")
+    if not m["monitors"].get("M3:Tx.serialize") or not any(k.startswith("M1:") for k in m["monitors"]):
+        out.append("the M1/M3 invariant hooks were never evaluated inside a flow")
     return out
 
 
@@ -102,6 +104,9 @@ def shard_flows(ctx: Ctx) -> None:  # noqa: C901, PLR0912, PLR0915
     for d in MECH:
         reach.watch_path(d)
     reach.start()
+    from ..monitors import arm_m1, arm_m3
+    arm_m1(ctx)      # low-level invariants checked inside the high-level flows (Section 2.2 B)
+    arm_m3(ctx)
     r = ctx.rng
     g = FlowGen(r, label=f"c10:{ctx.seed}:{ctx.shard}")
     names = list(SHAPES)
